@@ -82,6 +82,38 @@ def has_object_example(v):
     return False
 
 
+def collision_spec():
+    """distinct inline schemas (and inline enums) that want the same Rust name: which one keeps the bare
+    name and which gets the numeric suffix must not depend on the process"""
+    s = ops_spec([{"opid": "getAll", "method": "get", "path": "/all", "params": [], "body": None, "responses": [["200", [["application/json", "ref:All"]]]]}])
+    sch = s["components"]["schemas"]
+    allp = {}
+    for i, n in enumerate(["Order", "Cart", "Bill", "Ship", "Acct", "Lane"]):
+        sch[n] = {"type": "object", "properties": {"shipping_address": {"type": "object", "properties": {"street" + str(i): {"type": "string"}}},
+                                                    "item_kind": {"type": "string", "enum": ["x" + str(i), "y" + str(i)]}}}
+        sch[n + "Shipping"] = {"type": "object", "properties": {"address": {"type": "object", "properties": {"zip" + str(i): {"type": "integer"}}}}}
+        sch[n + "Item"] = {"type": "object", "properties": {"kind": {"type": "string", "enum": ["p" + str(i), "q" + str(i)]}}}
+        for m in (n, n + "Shipping", n + "Item"):
+            allp[m.lower()] = {"$ref": "#/components/schemas/" + m}
+    sch["All"] = {"type": "object", "properties": allp}
+    return s
+
+
+def ext_object_spec():
+    """the same inline schema, carrying object-valued vendor extensions, in several places: its identity
+    (deduplication, naming) must not depend on the key order of the free-form objects"""
+    s = ops_spec([{"opid": "getZoo", "method": "get", "path": "/zoo", "params": [], "body": None, "responses": [["200", [["application/json", "ref:Zoo"]]]]}])
+    sch = s["components"]["schemas"]
+    def owner():
+        return {"type": "object", "x-ui": {"widget": "card", "order": 1, "style": {"pad": 2, "border": "thin", "colour": "red"}, "hint": "h"},
+                "x-meta": {"b": [1, {"k2": 1, "k1": 2, "k3": 3}], "a": None, "c": True},
+                "properties": {"name": {"type": "string"}, "since": {"type": "integer"}}, "required": ["name"]}
+    for n in ("Cat", "Dog", "Emu", "Fox"):
+        sch[n] = {"type": "object", "properties": {"owner": owner(), "tag": {"type": "string"}}}
+    sch["Zoo"] = {"type": "object", "properties": {n.lower(): {"$ref": "#/components/schemas/" + n} for n in ("Cat", "Dog", "Emu", "Fox")}}
+    return s
+
+
 def run(ctx):
     ctx.translate(["hashsites"])
     proofs_ok, driver_ok = ctx.build_lean(["Oas3Model.Props.C11"], driver=False)
@@ -104,6 +136,8 @@ def run(ctx):
         ex = ops_spec([{"opid": "ex", "method": "get", "path": "/e", "params": [], "body": None, "responses": [["200", [["application/json", "ref:Pet"]]]]}])
         ex["components"]["schemas"]["Pet"]["properties"]["meta"] = {"type": "object", "example": {"b": 1, "a": {"z": 1, "y": 2}, "c": 3, "d": 4}}
         specs.append(("gen_example_object", ex))
+        specs.append(("gen_name_collisions", collision_spec()))
+        specs.append(("gen_ext_objects", ext_object_spec()))
         nperm = 2 if ctx.quick else 5
         for name, spec in specs:
             d = ctx.scratch(name)
@@ -112,7 +146,7 @@ def run(ctx):
             modes = MODES if not ctx.quick else r.sample(MODES, 2)
             for mode in modes:
                 rc0, base, err0 = gen(ctx, d, base_path, mode, "base_" + mode)
-                variants = [("rerun", base_path)]
+                variants = [("rerun", base_path), ("rerunb", base_path)] + ([] if ctx.quick else [("rerunc", base_path), ("rerund", base_path)])
                 for i in range(nperm):
                     pp = os.path.join(d, f"perm{i}.json")
                     json.dump(permute(spec, r), open(pp, "w"), indent=r.choice([None, 1, 4]))
@@ -144,7 +178,7 @@ def run(ctx):
                             diffs.append((k, min(len(a), len(b)), "<len>", "<len>"))
                     only_example_docs = bool(diffs) and all(("Example" in x or "Example" in y or x.strip().startswith("///") and y.strip().startswith("///")) for _, _, x, y in diffs)
                     case = {"op": "cli.determinism", "in": {"spec_name": name, "mode": mode, "variant": tag, "spec_file": path}}
-                    if only_example_docs and tag != "rerun" and has_object_example(spec):
+                    if only_example_docs and not tag.startswith("rerun") and has_object_example(spec):
                         ctx.known_seen.setdefault("KnownValueKeyOrder", {"case": case, "impl": {"diff": [list(map(str, d_)) for d_ in diffs[:3]]}, "why": "object-valued example rendered in input key order"})
                     else:
                         keep = os.path.join(vlib.VERIF, "evidence", "replay", "C11_spec_" + os.path.basename(path))
@@ -163,5 +197,5 @@ def run(ctx):
     return ctx.finish(
         checker_cmd="lake build Oas3Model.Props.C11 && #print axioms on every theorem" + ("" if ctx.quick else " && leanchecker"),
         trusted_base=vlib.TRUSTED_BASE + ["the YAML front end (serde_yaml) and the process hash seed are outside the model: covered only by the byte comparison of real CLI runs", "the hash-site table is produced by a regex-level scan (tools/extract.py: gen_hashsites)"],
-        rule="the REAL binary on shipped fixtures (10 thorough / 4 quick) + 3 generated specs x modes (4 thorough / 2 quick) x {same file again (fresh process, fresh hash seed), 2-5 random key-order permutations at every object level with different indentation, YAML, key-permuted YAML}; output files compared byte for byte modulo the `Source:` line; non-trivial = every variant; distinct by (spec, mode, variant)",
+        rule="the REAL binary on shipped fixtures (10 thorough / 4 quick) + 5 generated specs (incl. colliding inline names, object-valued vendor extensions in duplicated inline schemas) x modes (4 thorough / 2 quick) x {same file again 2-4 times (fresh process, fresh hash seed), 2-5 random key-order permutations at every object level with different indentation, YAML, key-permuted YAML}; output files compared byte for byte modulo the `Source:` line; non-trivial = every variant; distinct by (spec, mode, variant)",
         assumptions=["JSON object key order, whitespace and JSON-vs-YAML are the re-serialisations considered", "PyYAML (or the built-in emitter) writes a document equal to the JSON one"])
